@@ -216,7 +216,7 @@ func (eval *Evaluator) evaluateFromDiscreteLogSets(GaloisElement func(k int) (ga
 	v++
 
 	// Second and third conditions of line 7 or 17
-	if v == windowSize || k == 1 {
+	if v == windowSize || k == 1 || k == -1 {
 
 		if err := eval.Automorphism(acc, GaloisElement(v), acc); err != nil {
 			return v, err
@@ -246,7 +246,12 @@ func getGaloisElementInverseMap(GaloisGen uint64, N int) (GaloisGenDiscreteLog m
 	for i := 0; i < NHalf; i++ {
 		GaloisGenDiscreteLog[pow] = i
 		/* #nosec G115 -- twoN cannot be negative */
-		GaloisGenDiscreteLog[uint64(twoN)-pow] = -i
+		if i == 0 {
+			// -g^{0}: -0 cannot be told from 0, the negative set of 0 is stored under 2N
+			GaloisGenDiscreteLog[uint64(twoN)-pow] = twoN
+		} else {
+			GaloisGenDiscreteLog[uint64(twoN)-pow] = -i
+		}
 		pow *= GaloisGen
 		pow &= mask
 	}
@@ -265,6 +270,11 @@ func (eval *Evaluator) getDiscreteLogSets(a []uint64) (discreteLogSets map[int][
 
 		if ai&1 != 1 && ai != 0 {
 			panic("getDiscreteLogSets: a[i] is not odd and thus not an element of Z_{2N}^{*} -> a[i] = (+/- 1) * g^{k} does not exist.")
+		}
+
+		// X^{0 * s[i]} = 1: a zero coefficient does not contribute
+		if ai == 0 {
+			continue
 		}
 
 		dlog := GaloisGenDiscreteLog[ai]
